@@ -69,11 +69,11 @@ CHECKS = {
 PENDING = {}
 COMMON = (" Every generated case also carries history and boundary elements where they apply: read-only array arguments, one caller-held object reused "
           "in place for a previous input, results of earlier calls re-verified after later ones, an earlier call repeated later in the process must "
-          "give the same value, exact special values and values 1e-12..1e-2 away from them, integer / float32 / list-vs-array typing of the same "
+          "give the same value, exact special values and values 1e-12..1e-2 away from them, integer / float32 / list-vs-array typing and row- / column-major layout of the same "
           "values (incl. whole-number cells and positions typed as Python ints), and the far ends of the stated domain in size (indices of 100-300, "
           "500 A and needle-shaped cells, shells of tens of thousands of reflections, thousands of parameters, many-cell shifts) in a fixed share of the cases. "
-          "Sensitivity: 320 independently seeded changes (seeded/, 16 per property, written by sub-agents that saw only the property text; 3 obsoleted by a "
-          "later repair, 9 not claimed because they lie outside the property as stated - DESIGN.md 9.4) and every reverted fix: commit make the quick check exit 1; quiet on the unchanged tree at every "
+          "Sensitivity: 360 independently seeded changes (seeded/, 18 per property, written by sub-agents that saw only the property text; 3 obsoleted by a "
+          "later repair, 12 not claimed because they lie outside the property as stated - DESIGN.md 9.4) and every reverted fix: commit make the quick check exit 1; quiet on the unchanged tree at every "
           "VERIF_SEED tried (quick: 0-7, 11-13, 21-24, 31-33, 41-42, 51-52, 61, 71-72; thorough: 0, 7 and, for the checks changed last, 11); a mechanical AST-mutation sweep "
           "(tools/mutants.py: 144 mutants that pass the repository's tests, 117 caught, 27 triaged as equivalent or outside the property) is recorded in DESIGN.md 9.6.")
 
